@@ -20,6 +20,6 @@ FreshLoads ==
 
 LoadBehaviour == [loads |-> SetToSeq({l \in PairLoads : l.limit <= TotalSize(rep[l.resp]) + 1}) \o SetToSeq({l \in FreshLoads : l.limit <= TotalSize(rep[l.resp]) + 1})] @@ Behaviour
 
-LoadView == vars
+LoadView == <<vars, rj>>
 EmitLoad == EmitWhen(EmitNow, LoadBehaviour)
 =============================================================================
